@@ -1,10 +1,38 @@
-(* Properties_C12.v — obligations of property C12.  Contains only theorem statements closed by
-   `exact <lemma>` and Print Assumptions. *)
-Require Import ObsRun.
+(* Properties_C12.v — obligations of property C12 (every reported clock time is the broadcast UTC
+   instant shifted by the offset). *)
+Require Import ObsRun Lemmas_Callbacks.
 Local Open Scope Z_scope.
 
-(* non-vacuity: the observer of C12 is evaluated (and holds) along a run of the model that
-   touches every group kind *)
+(* For every reachable state and every call: a 4A group (B/4096 = 4, version bit 0) with
+   error-free B, C, D whose hour (C mod 2)*16 + D/4096 is below 24 and minute (D/64) mod 64 below 60
+   produces, when a clock-time callback is registered, EXACTLY ONE report (y, m, d, h, mi, off) with
+     valid_date y m d  (a real Gregorian date),  0 <= h < 24,  0 <= mi < 60,  off = 30 * o,
+     1440 * mjd_of_civil y m d + 60 h + mi = 1440 * MJD + 60 * hour + minute + 30 * o
+   (o the sign-magnitude half-hour offset; the left side is injective on valid values, so the one
+   equation pins date, time of day and all midnight / month / year / century crossings);
+   every other call produces no clock-time report.  The calendar part rests on a kernel-evaluated
+   sweep over ALL 131074 day numbers -1 .. 2^17, the time part on all 24 x 60 x 63 cases. *)
+Theorem C12_observer : forall conv lut h s o, reach conv lut h s -> wf_op o ->
+  obs_C12 (o :: h) (snap_of s) (snap_of (fst (step conv lut s o))) (snd (step conv lut s o)) (ret_of o) = true.
+Proof. exact C12_observer_holds. Qed.
+Print Assumptions C12_observer.
+
+Theorem C12_calendar_all_days : forall m1, -1 <= m1 <= 131072 ->
+  let '(y, m, d) := date_part (to_u32 m1) in valid_date y m d = true /\ mjd_of_civil y m d = m1.
+Proof.
+  intros m1 H. pose proof (date_spec m1 H) as D. unfold date_ok in D.
+  destruct (date_part (to_u32 m1)) as [[y m] d]. apply andb_true_iff in D. destruct D as [D1 D2].
+  split; [exact D1|apply Z.eqb_eq; exact D2].
+Qed.
+Print Assumptions C12_calendar_all_days.
+
+(* the reference calendar function is the usual one *)
+Example C12_mjd_epoch : mjd_of_civil 1858 11 17 = 0 /\ mjd_of_civil 2000 1 1 = 51544
+  /\ mjd_of_civil 2023 11 27 = 60275 /\ mjd_of_civil 2100 3 1 = 88128 /\ mjd_of_civil 1900 2 28 = 15078.
+Proof. vm_compute. repeat split. Qed.
 Example C12_scenario : check_run_u (observer_u 12) scenario = true.
 Proof. vm_compute. reflexivity. Qed.
-Print Assumptions C12_scenario.
+Example C12_nontrivial :
+  snd (step_u (run_u (firstn 20 scenario)) (G 12801 16385 58096 2 0 0 0 0))
+  = [mkev FCT 3 77 (ACT 2028 2 15 1 0 60) SmNone].
+Proof. vm_compute. reflexivity. Qed.
